@@ -14,7 +14,7 @@ LEVEL = "exploration"
 RULE = (
     "stream = [flag-free noise] + 1..8 well-formed frames (addresses 1..4 octets each, any control/format type/S bit, info 0..max "
     "with emphasis on 0,1,2 and the 2047-octet limit, flag/escape-dense or uniform payload, unique 6-octet id in the info field), "
-    "separated and terminated by 1..3 flags; 30% of the frames sit on boundary values (HCS/FCS 0000, FFFF, ending in 7D, containing 7E, running FCS register 0000 mid-frame, near-maximum flag/escape-dense); every 20th stream holds 60..700 frames (up to ~90 KB, also fed as one tiny call followed by one huge call); splittings include cuts near 2047/2048/8191/8192 multiples and right after every n-th flag; stuffed on the wire for stuffing readers; for non-stuffing readers frames are redrawn until "
+    "separated and terminated by 1..3 flags (30%: a fill run of 1..1000 flags with lengths around powers of two and multiples of 33); 30% of the frames sit on boundary values (HCS/FCS 0000, FFFF, ending in 7D, containing 7E, running FCS register 0000 mid-frame, near-maximum flag/escape-dense); every 20th stream holds 60..700 frames (up to ~90 KB, also fed as one tiny call followed by one huge call); splittings include cuts near 2047/2048/8191/8192 multiples and right after every n-th flag; stuffed on the wire for stuffing readers; for non-stuffing readers frames are redrawn until "
     "they are inside the property's domain (no flag in header octets; with abort detection no 7D directly before a flag or the frame end). "
     "Each stream runs under several splittings. evaluations = executions; distinct non-trivial = distinct (configuration, stream) digests "
     "(every stream contains >= 1 frame); a small shard runs ALL 2^(L-1) splittings of short streams; twin executions feed two reader objects alternately with adversarial call boundaries (calls ending right after an escape octet / starting with a flag)."
@@ -57,7 +57,7 @@ def make_stream(rng, cfg, ctx=None, max_frames: int = 8, small: bool = False):
                 ctx.count("frames_redrawn_outside_domain")
         sent.append((fr, d))
         out += hdlc_gen.on_wire(fr, stuffing)
-        out += bytes([0x7E]) * rng.choice((1, 1, 1, 2, 3))
+        out += bytes([0x7E]) * rng.choice((1, 1, 1, 2, 3)) if rng.random() < 0.7 or small else hdlc_gen.fill(rng)
     return bytes(out), sent
 
 
